@@ -201,7 +201,7 @@ class Complementary:
             raise ValueError(f"All inputs must have at least two observations.")
         if self.acc.shape != self.gyr.shape:
             raise ValueError(f"Could not operate on acc array of shape {self.acc.shape} and gyr array of shape {self.gyr.shape}.")
-        W = np.zeros_like(self.acc)
+        W = np.zeros(self.acc.shape)      # Always a float array (zeros_like would truncate the angles of integer-typed samples)
         if self.mag is None:
             # Estimation with IMU only (Gyroscopes and Accelerometers)
             W2 = self.am_estimation(self.acc)
@@ -263,7 +263,7 @@ class Complementary:
                 ez = np.arctan2(-by, bx)
             return np.array([ex, ey, ez])
         # Estimation for 2-dimensional arrays
-        angles = np.zeros_like(acc)   # Allocation of angles array
+        angles = np.zeros(acc.shape)  # Allocation of angles array (always float)
         # Estimate tilt angles
         a_norm = np.linalg.norm(acc, axis=1)[:, None]
         if np.where(a_norm == 0)[0].size > 0:
